@@ -441,3 +441,34 @@ func (c *Chain) HeaderTime(n uint64) uint64 {
 	defer c.mu.Unlock()
 	return c.headers[n].Time
 }
+
+// Snap is a saved canonical chain (headers, logs, pointers).
+type Snap struct {
+	headers                 []*types.Header
+	logs                    map[uint64][]types.Log
+	latest, safe, finalized uint64
+}
+
+// Snapshot saves the canonical chain as it is now; Restore makes it canonical again (the chain "switches back" to
+// exactly those blocks, same hashes).
+func (c *Chain) Snapshot() *Snap {
+	c.mu.Lock()
+	defer c.mu.Unlock()
+	s := &Snap{headers: append([]*types.Header{}, c.headers...), logs: map[uint64][]types.Log{}, latest: c.latest, safe: c.safe, finalized: c.finalized}
+	for n, l := range c.logs {
+		s.logs[n] = append([]types.Log{}, l...)
+	}
+	return s
+}
+
+func (c *Chain) Restore(s *Snap) {
+	c.mu.Lock()
+	defer c.mu.Unlock()
+	c.headers = append([]*types.Header{}, s.headers...)
+	c.logs = map[uint64][]types.Log{}
+	for n, l := range s.logs {
+		c.logs[n] = append([]types.Log{}, l...)
+	}
+	c.latest, c.safe, c.finalized = s.latest, s.safe, s.finalized
+	c.forkID++
+}
